@@ -111,6 +111,9 @@ def build(case):
         copts['weight_constant_axis'] = opts['weight_constant_axis']
         if o.get('wca_int') and kind not in models.INTEGRATION and len(o['wca']) == 1:
             opts['weight_constant_axis'] = int(o['wca'][0])        # the plain-int spelling of a single tied axis (as the repository's own tests use it)
+            if o.get('wca_pos'):
+                opts['weight_constant_axis'] %= len(aff_shape)      # "or the positive counterpart": the same axis counted from the front
+            copts['wca_given'] = opts['weight_constant_axis']
     else:
         copts['weight_constant_axis'] = (-1,)
     sal = o.get('saliency', 'none')
@@ -311,6 +314,7 @@ def sample_opts(rng, kind, lead, full=True):
         o['inline_permutation_alignment'] = bool(rng.uniform() < 0.3) and 0.0 not in sw
     if kind not in models.INTEGRATION and len(o['wca']) == 1 and rng.uniform() < 0.3:
         o['wca_int'] = True
+        o['wca_pos'] = bool(rng.uniform() < 0.4)
     # a quarter of the time an option is not passed at all: the library's own default applies (the monitors know the documented
     # defaults), so that a changed default or two entry points with different defaults are exercised too
     for name in ('covariance_norm', 'hermitize', 'eigenvalue_floor', 'affiliation_eps', 'max_concentration', 'min_concentration', 'covariance_type'):
